@@ -83,7 +83,7 @@ func readOnlyClose(c ssa.CallInstruction) bool {
 	if cc.IsInvoke() {
 		recv, name = cc.Value.Type(), cc.Method.Name()
 	} else if sc := cc.StaticCallee(); sc != nil && sc.Signature.Recv() != nil {
-		recv, name = sc.Signature.Recv().Type(), sc.Name()
+		recv, name = sc.Signature.Recv().Type(), fnName(sc)
 	}
 	if name != "Close" || recv == nil {
 		return false
